@@ -1,0 +1,8 @@
+//go:build !verif
+// +build !verif
+
+package sarama
+
+// verifHook is a no-op unless the package is built with the "verif" tag
+// (verification harness instrumentation points).
+func verifHook(point string) {}
